@@ -62,7 +62,7 @@ pub fn build_scenario(
     let model = Model::of(&img.bytes);
     let spec = workload::draw_spec(&mut o, &img.bytes);
     let max_ops = if thorough { 64 } else { 24 };
-    let ops = workload::gen_ops(&mut o, &img.bytes, &model, max_ops);
+    let ops = workload::gen_ops(&mut o, &img.bytes, &model, max_ops, 80);
     let profile = workload::draw_profile(&mut io);
     let len = img.bytes.len() as u64;
     // C08 only: some streams do not support SeekFrom::End (the length probe fails); the
@@ -76,6 +76,27 @@ pub fn build_scenario(
                 sticky: false,
             },
         }]
+    } else if prop == "C08" && io.chance(1, 8) {
+        // the bounds and the laziness must also hold on the error paths: a few transient
+        // failures at seeded calls (the oracle is unchanged; C17 judges the answers)
+        let n = io.urange(1, 2);
+        (0..n)
+            .map(|_| crate::reader::Override {
+                op_id: io.below(ops.len() as u64 + 1) as u32,
+                call: io.below(6) as u32,
+                fault: match io.below(3) {
+                    0 => crate::reader::Fault::Fail {
+                        kind: std::io::ErrorKind::Other,
+                        sticky: false,
+                    },
+                    1 => crate::reader::Fault::PartialThenFail {
+                        k: io.range(1, 40) as u32,
+                        kind: std::io::ErrorKind::TimedOut,
+                    },
+                    _ => crate::reader::Fault::EofEarly { sticky: false },
+                },
+            })
+            .collect()
     } else {
         Vec::new()
     };
@@ -364,7 +385,7 @@ pub fn check_c08(sc: &Scenario, r: &EquivRun, facts: &mut RunFacts) -> Option<Vi
                 st.id,
                 format!(
                     "more than {} I/O calls in one query on a {}-byte stream",
-                    crate::reader::STEP_CAP_PER_OP,
+                    crate::reader::STEP_CAP_PER_OP as u64 + 16 * len,
                     len
                 ),
             );
